@@ -123,7 +123,18 @@ func (p *refPlatform) steps(sec string, v interface{}) []step {
 func parsePlatform(m map[string]interface{}) *refPlatform {
 	p := &refPlatform{Present: map[string]bool{}, Levels: map[string]refLevel{}}
 	for _, s := range sections {
-		if v, ok := m[s]; ok && !isEmpty(v) {
+		v, ok := m[s]
+		if !ok {
+			continue
+		}
+		// a step list that is defined as an empty list IS defined (the flavour needs none of the
+		// base's steps); only an absent / null section inherits. For the other sections an empty
+		// value is outside the checked merge semantics (never generated).
+		if l, isList := v.([]interface{}); isList && len(l) == 0 && strings.Contains(s, "on-") {
+			p.Present[s] = true
+			continue
+		}
+		if !isEmpty(v) {
 			p.Present[s] = true
 		}
 	}
